@@ -76,6 +76,10 @@ pub struct PayModel {
     /// locked into both current commitments of channel 1
     #[serde(default)]
     pub locked_prefix: bool,
+    /// the node-wide payment velocity limit is one msat below the keysend amount: the approval is
+    /// declined, and a declined hash must stay as unbacked as one that was never proposed
+    #[serde(default)]
+    pub declined: bool,
 }
 
 pub fn pc_content(pc: PC) -> Content {
@@ -204,13 +208,19 @@ impl Model for PayModel {
     }
 
     fn name(&self) -> String {
-        format!("payflow(ops<={},contents={:?},k={}{}{}{}{})", self.max_ops, self.contents, self.k, if self.strict { ",enforce_balance" } else { "" }, if self.monitors { ",monitors" } else { "" }, if self.holder_letters { "" } else { ",cp-side-only" }, if self.locked_prefix { ",first-part-locked-in" } else { "" })
+        format!("payflow(ops<={},contents={:?},k={}{}{}{}{})", self.max_ops, self.contents, self.k, if self.strict { ",enforce_balance" } else { "" }, if self.monitors { ",monitors" } else { "" }, if self.holder_letters { "" } else { ",cp-side-only" }, if self.locked_prefix { ",first-part-locked-in" } else { "" }) + if self.declined { ",approval-declined-by-velocity" } else { "" }
     }
 
     fn init(&self) -> PState {
         let mut cfg = WorldCfg::default();
         if self.strict {
             cfg.policy = Some(strict_policy(cfg.network));
+        }
+        if self.declined {
+            use lightning_signer::util::velocity::{VelocityControlIntervalType, VelocityControlSpec};
+            let mut p = cfg.policy.take().unwrap_or_else(|| lightning_signer::policy::simple_validator::make_default_simple_policy(cfg.network));
+            p.global_velocity_control = VelocityControlSpec { limit_msat: A_SAT * 1000 - 1, interval_type: VelocityControlIntervalType::Hourly };
+            cfg.policy = Some(p);
         }
         let w = World::new(cfg);
         let mut f = BTreeMap::new();
@@ -414,15 +424,17 @@ pub struct PayRun {
 pub fn explore(tier: Tier, monitors: bool, wall_s: f64) -> PayRun {
     let models_cfg: Vec<PayModel> = match (tier, monitors) {
         (Tier::Quick, false) => vec![
-            PayModel { max_ops: 4, contents: vec![PC::E, PC::Oh, PC::O1, PC::O2, PC::I1], k: 2, monitors, strict: false, holder_letters: true, locked_prefix: false },
-            PayModel { max_ops: 6, contents: vec![PC::Oh, PC::O1], k: 3, monitors, strict: false, holder_letters: false, locked_prefix: false },
-            PayModel { max_ops: 3, contents: vec![PC::E, PC::Oh, PC::O1, PC::O1x2], k: 3, monitors, strict: false, holder_letters: true, locked_prefix: true },
+            PayModel { max_ops: 4, contents: vec![PC::E, PC::Oh, PC::O1, PC::O2, PC::I1], k: 2, monitors, strict: false, holder_letters: true, locked_prefix: false, declined: false },
+            PayModel { max_ops: 6, contents: vec![PC::Oh, PC::O1], k: 3, monitors, strict: false, holder_letters: false, locked_prefix: false, declined: false },
+            PayModel { max_ops: 3, contents: vec![PC::E, PC::Oh, PC::O1, PC::O1x2], k: 3, monitors, strict: false, holder_letters: true, locked_prefix: true, declined: false },
+            PayModel { max_ops: 3, contents: vec![PC::E, PC::Oh, PC::O1, PC::O2], k: 2, monitors, strict: false, holder_letters: true, locked_prefix: false, declined: true },
         ],
-        (Tier::Quick, true) => vec![PayModel { max_ops: 3, contents: vec![PC::E, PC::O1, PC::O2, PC::Ox], k: 2, monitors, strict: false, holder_letters: true, locked_prefix: false }],
+        (Tier::Quick, true) => vec![PayModel { max_ops: 3, contents: vec![PC::E, PC::O1, PC::O2, PC::Ox], k: 2, monitors, strict: false, holder_letters: true, locked_prefix: false, declined: false }],
         (Tier::Thorough, _) => vec![
-            PayModel { max_ops: 6, contents: vec![PC::E, PC::Oh, PC::O1, PC::Ox, PC::O2, PC::I1, PC::I2O2, PC::O1x2], k: 2, monitors, strict: false, holder_letters: true, locked_prefix: false },
-            PayModel { max_ops: 5, contents: vec![PC::E, PC::Oh, PC::O1, PC::O2, PC::I1], k: 2, monitors, strict: true, holder_letters: true, locked_prefix: false },
-            PayModel { max_ops: 5, contents: vec![PC::E, PC::Oh, PC::O1, PC::Ox, PC::O1x2, PC::I1], k: 3, monitors, strict: false, holder_letters: true, locked_prefix: true },
+            PayModel { max_ops: 6, contents: vec![PC::E, PC::Oh, PC::O1, PC::Ox, PC::O2, PC::I1, PC::I2O2, PC::O1x2], k: 2, monitors, strict: false, holder_letters: true, locked_prefix: false, declined: false },
+            PayModel { max_ops: 5, contents: vec![PC::E, PC::Oh, PC::O1, PC::O2, PC::I1], k: 2, monitors, strict: true, holder_letters: true, locked_prefix: false, declined: false },
+            PayModel { max_ops: 5, contents: vec![PC::E, PC::Oh, PC::O1, PC::Ox, PC::O1x2, PC::I1], k: 3, monitors, strict: false, holder_letters: true, locked_prefix: true, declined: false },
+            PayModel { max_ops: 5, contents: vec![PC::E, PC::Oh, PC::O1, PC::O2, PC::I1], k: 2, monitors, strict: false, holder_letters: true, locked_prefix: false, declined: true },
         ],
     };
     let mut stats = BfsStats { closed: true, ..Default::default() };
